@@ -2,6 +2,7 @@
 //!   harness <ID> --tier quick|thorough --seed N [--replay file] [--verbose]
 
 mod astx;
+mod c01;
 mod c02;
 mod c03;
 mod c04;
@@ -29,6 +30,10 @@ fn main() {
         std::process::exit(2);
     }
     let id = args[1].clone();
+    if id == "C01-worker" {
+        runner::install_quiet_panic_hook();
+        std::process::exit(c01::worker_main(&args[2..]));
+    }
     let mut tier = Tier::Quick;
     let mut seed: u64 = std::env::var("VERIF_SEED").ok().and_then(|s| s.parse().ok()).unwrap_or(1);
     let mut replay_path: Option<String> = None;
@@ -81,6 +86,7 @@ fn main() {
     runner::init_known(&id);
     let ctx = Ctx { id: id.clone(), tier, seed, replay, start: Instant::now(), threads, verbose };
     let code = match id.as_str() {
+        "C01" => c01::run(&ctx),
         "C02" => c02::run(&ctx),
         "C03" => c03::run(&ctx),
         "C04" => c04::run(&ctx),
